@@ -44,6 +44,9 @@ fn main() {
         "record-paired" => paired::record(&opts),
         "replay-cursor" => cursor::replay(&opts),
         "record-cursor" => cursor::record(&opts),
+        "record-own" => gdslh::own::record(opts.get("flavour").expect("--flavour"), opts.get("nodes").map(|s| s.parse().unwrap()).unwrap_or(6),
+            opts.get("histories").map(|s| s.parse().unwrap()).unwrap_or(50), opts.get("steps").map(|s| s.parse().unwrap()).unwrap_or(60),
+            opts.get("seed").map(|s| s.parse().unwrap()).unwrap_or(1), opts.get("trace").expect("--trace")),
         "replay-own" => gdslh::own::replay(opts.get("flavour").expect("--flavour"), opts.get("cases").expect("--cases"), 300),
         "record-container" => container::record(&opts),
         "replay-untrusted" => serde_io::replay_untrusted(&opts),
